@@ -1,5 +1,6 @@
 import Driver.Common
 import DryocVerif.Model.Entropy
+import DryocVerif.Model.EntropyInst
 import DryocVerif.Spec.X25519
 import DryocVerif.Spec.Ed25519
 import DryocVerif.Spec.Base64
@@ -7,10 +8,9 @@ open DryocVerif
 namespace Driver.Rand
 open DryocVerif.Model.Entropy
 
-def derivers : Derivers where
-  x25519Base := Spec.X25519.x25519Base
-  edPublic := Spec.Ed25519.publicKey
-  b64 := fun b => (Spec.Base64.encodeChars b).map (fun c => UInt8.ofNat c.toNat)
+/-- the same three functions as before, now named in the library
+(`Model.Entropy.specDerivers`) so that theorems can mention them -/
+def derivers : Derivers := specDerivers
 
 def handle (op : String) (args : List String) : Option Ans :=
   match op, args with
